@@ -12,8 +12,10 @@ reads as before the command or as after the completed command — never empty, t
 import io
 import json
 import os
+import pickle
 import re
 import shutil
+import time
 
 from . import common, lib_records, lib_fstrace
 from .common import parallel_map
@@ -111,10 +113,12 @@ def _child_cmd(stack, userdata, cmd, crash_at, trace):
     os.chdir(os.path.dirname(stack))
     shutil.rmtree(os.path.join(userdata, "_caches_"), ignore_errors=True)
     lib_records.patch_stamps()
-    tr = lib_fstrace.Tracer(os.path.join(stack, "ups_db"), crash_at)
+    tr = lib_fstrace.Tracer(os.path.join(stack, "ups_db"), crash_at, also=[os.path.join(userdata, "_caches_")])
     e = common.new_eups(flavor=FLAVORS[cmd["f"]], force=bool(cmd.get("force")) or cmd["op"] == "declaretab")
+    time.sleep(0.02)      # the cache files this Eups has just written are older than anything the command writes
     tr.install()
     tr.wrap_copy2(common.eups_mod("utils"))
+    tr.wrap_atomicfile(common.eups_mod("utils"))
     err = None
     try:
         _exec(e, stack, cmd)
@@ -139,6 +143,52 @@ def _child_read(stack, userdata):
             out.append(sorted([p.name, p.version, sorted(set(str(t) for t in p.tags))] for p in prods if p.flavor == f))
         except Exception as ex:  # noqa
             out.append("EXC:" + lib_records.exc_name(ex))
+    return out
+
+
+def _child_read_cached(stack, userdata):
+    """A later read-only command of the same user, in a fresh process, *with the product cache as the killed command
+    left it*: `eups list` for each flavor and findProduct of every (product, version) through the cache."""
+    lib_records.silence()
+    os.chdir(os.path.dirname(stack))
+    out = []
+    for f in FLAVORS:
+        try:
+            common.eups_mod("db.Database")._databases.clear()
+            e = common.new_eups(flavor=f)
+            prods = e.findProducts()
+            lst = sorted([p.name, p.version, sorted(set(str(t) for t in p.tags))] for p in prods if p.flavor == f)
+            one = sorted([p, v] for p in PRODUCTS for v in VERSIONS
+                         if (lambda q: q is not None and q.flavor == f)(e.findProduct(p, v)))
+            if one != sorted([x[0], x[1]] for x in lst):
+                out.append("MISMATCH: list %r, findProduct %r" % (lst, one))
+            else:
+                out.append(lst)
+        except Exception as ex:  # noqa
+            out.append("EXC:" + lib_records.exc_name(ex))
+    return out
+
+
+CACHE_FLAVORS = FLAVORS + ["generic"]
+
+
+def cache_snapshot(stack, userdata):
+    """State of the product cache files of the stack: {flavor: absent | empty | complete | garbled}."""
+    d = os.path.join(userdata, "_caches_") + stack
+    out = {}
+    for f in CACHE_FLAVORS:
+        fn = os.path.join(d, f + ".pickleDB1_3_0")
+        if not os.path.exists(fn):
+            out[f] = "absent"
+        elif os.path.getsize(fn) == 0:
+            out[f] = "empty"
+        else:
+            try:
+                with open(fn, "rb") as fh:
+                    pickle.load(fh)
+                out[f] = "complete"
+            except Exception:  # noqa
+                out[f] = "garbled"
     return out
 
 
@@ -275,6 +325,8 @@ def _run_cmd(S, ud, db, saved, init, cmd):
     events = full[1]["events"]
     obs = {"init": init, "events": events, "err": full[1]["err"], "states": []}
     obs["final"] = snapshot(S, own_pid=full[1]["pid"])
+    obs["final"]["cache"] = cache_snapshot(S, ud)
+    obs["final_cached_listing"] = _reader_cached(S, ud)
     obs["final_listing"] = _reader(S, ud)
     for k in range(len(events)):
         _restore(db, saved)
@@ -284,7 +336,9 @@ def _run_cmd(S, ud, db, saved, init, cmd):
             continue
         # the killed child's temporary file is the one that was not there before
         st = _mark_own_tmp(snapshot(S), init)
-        obs["states"].append({"k": k, "snap": st, "listing": _reader(S, ud)})
+        st["cache"] = cache_snapshot(S, ud)
+        cached = _reader_cached(S, ud)            # first: it uses the cache the killed command left
+        obs["states"].append({"k": k, "snap": st, "cached_listing": cached, "listing": _reader(S, ud)})
     return obs
 
 
@@ -319,6 +373,24 @@ def _dir_digest(db):
     return common.digest(repr(items))
 
 
+def _reader_cached(S, ud):
+    """The listing of a fresh reader that finds the user's cache directory as it is; one reader process per distinct
+    content of database directory + cache directory (time stamps of the cache files included)."""
+    cd = os.path.join(ud, "_caches_")
+    items = []
+    for d, dirs, files in os.walk(cd):
+        dirs.sort()
+        for f in sorted(files):
+            full = os.path.join(d, f)
+            with open(full, "rb") as fh:
+                items.append((os.path.relpath(full, cd), fh.read(), os.stat(full).st_mtime_ns))
+    key = ("cached", S, _dir_digest(os.path.join(S, "ups_db")), common.digest(repr(items)))
+    if key not in _LISTINGS:
+        r = common.in_child(_child_read_cached, S, ud)
+        _LISTINGS[key] = r[1] if r[0] == "ok" else "EXC:child " + str(r[1])
+    return _LISTINGS[key]
+
+
 def _reader(S, ud):
     """The listing of a fresh reader; one reader process per distinct content of the database directory."""
     key = (S, _dir_digest(os.path.join(S, "ups_db")))
@@ -330,8 +402,23 @@ def _reader(S, ud):
 
 # ---- canonical forms -----------------------------------------------------------------------------------------
 
+def _cache_path(s):
+    """['cmain', flavor] / ['ctmp'] for a path below the user's cache directory, else None."""
+    if "/_caches_/" not in s:
+        return None
+    base = os.path.basename(s)
+    if base.endswith(".pickleDB1_3_0"):
+        f = base[:-len(".pickleDB1_3_0")]
+        return ["cmain", CACHE_FLAVORS.index(f) if f in CACHE_FLAVORS else f]
+    if base.endswith(".tmp"):
+        return ["ctmp"]
+    return ["cother", base]
+
+
 def canon_event(ev):
     kind = ev[0]
+    if any(_cache_path(x) is not None for x in ev[1:]):
+        return ["cache", kind] + [_cache_path(x) for x in ev[1:]]
 
     def path(s):
         pn, fn = s.split("/", 1)
@@ -504,6 +591,17 @@ def oracle(cmd, obs, st):
                                for (p, v, f_) in Dk if f_ == f))
         if lst != want:
             yield ("reader_reports_files", None, "listing %r, the record files say %r" % (lst, want))
+    # the product cache the killed command leaves behind: every cache file is a complete pickle (or absent), and a
+    # fresh reader of the same user - which finds that cache - succeeds and reports what the record files say
+    for f, cs in sorted(st["snap"].get("cache", {}).items()):
+        if cs in ("empty", "garbled"):
+            yield ("cache_file_complete", None, "cache file of flavor %s is %s after the kill" % (f, cs))
+    cl = st.get("cached_listing")
+    if cl is not None:
+        if not isinstance(cl, list) or any(not isinstance(x, list) for x in cl):
+            yield ("cached_reader_succeeds", None, "listing through the cache left by the killed command: %r" % (cl,))
+        elif isinstance(lst, list) and all(isinstance(x, list) for x in lst) and cl != lst:
+            yield ("cached_reader_agrees_with_files", None, "through the cache: %r, from the record files: %r" % (cl, lst))
     # interned table files: every one the command does not replace is as before; the one it replaces holds its old
     # or its new content (absent only if it was absent before)
     X0, Xk, Xf = table_state(init), table_state(st["snap"]), table_state(final)
@@ -583,7 +681,13 @@ def check_case(ctx, case, obs, ans):
         raise common.InfraError("traced command did not return: %s" % obs.get("full"))
     if obs["init"]["odd"]:
         raise common.InfraError("unexpected entries in the database directory: %s" % obs["init"]["odd"])
-    all_eff = [canon_event(e) for e in obs["events"]]
+    raw_eff = [canon_event(e) for e in obs["events"]]
+    ncache = sum(1 for e in raw_eff if e is not None and e[0] == "cache")
+    ctx.hist("cache-crash-points=%s" % ("0" if ncache == 0 else "1-10" if ncache <= 10 else "11-20" if ncache <= 20 else "21+"))
+    for e in raw_eff:
+        if e is not None and e[0] == "cache" and e[1] == "rename" and e[-1][0] == "cmain":
+            ctx.hist("cache-save=%s" % (CACHE_FLAVORS[e[-1][1]] if isinstance(e[-1][1], int) else e[-1][1]))
+    all_eff = [None if (e is not None and e[0] == "cache") else e for e in raw_eff]
     impl_eff = [e for e in all_eff if e is not None]
     # crash point k of the implementation (an index into its events) = crash point kmap[k] of the model (events that
     # are not modelled - creation of the directories of an interned table file - change nothing a reader sees)
@@ -624,6 +728,10 @@ def check_case(ctx, case, obs, ans):
             ctx.disagree("final_tables", inp, canon_tabs(obs["final"].get("tabs")), canon_tabs(fin_m.get("tabs")))
         if obs["final_listing"] != model_listing(fin_m["listing"]):
             ctx.disagree("final_listing", inp, obs["final_listing"], model_listing(fin_m["listing"]))
+    if obs.get("final_cached_listing") is not None and obs["final_cached_listing"] != obs["final_listing"]:
+        ctx.fail("cached_reader_agrees_with_files/completed", inp, obs["final_cached_listing"], None,
+                 note="after the completed command a reader through the cache reports %r, from the record files %r"
+                 % (obs["final_cached_listing"], obs["final_listing"]))
     for st in obs["states"]:
         k = st["k"]
         ctx.evaluations += 1
@@ -734,6 +842,10 @@ def run(ctx):
     while done < nstates and not ctx.out_of_time() and time.time() < soft:
         evaluate(ctx, gen_cases(ctx.rng, 6, ctx.n(8, 24)))
         done += 6
+    if ctx.distinct_nontrivial >= 20 and min(ctx.histogram.get("cache-save=generic", 0), ctx.histogram.get("cache-save=Linux", 0)) < 10:
+        raise common.InfraError("degenerate distribution: crash points inside the writes of the product cache: %d saves of the "
+                                "last flavor's file (generic), %d of Linux" % (ctx.histogram.get("cache-save=generic", 0),
+                                                                               ctx.histogram.get("cache-save=Linux", 0)))
     if ctx.evaluations and ctx.distinct_nontrivial < 20:
         raise common.InfraError("degenerate distribution: %d commands with effects" % ctx.distinct_nontrivial)
 
